@@ -44,6 +44,7 @@ LEN_CALLS = (
 NON_ORIGIN_SUFFIX = ('::new', '::from_elem', '::with_capacity', '::default', '::from_str', '::new_display', '::new_debug', '::from', '::into', '::of', '::generator', '::identity')
 
 ELEMENT_MAPPERS = ('std::iter::Iterator::map', 'std::iter::Iterator::filter_map', 'std::iter::Iterator::flat_map', 'std::iter::Iterator::map_while')
+ELEMENT_SELECTORS = ('std::iter::Iterator::filter', 'std::iter::Iterator::take_while', 'std::iter::Iterator::skip_while', 'std::iter::Iterator::inspect')
 ITER_TY_MARKERS = ('IterMut', 'Zip<', 'Enumerate<', 'ChunksMut', 'ChunksExactMut', 'Rev<', 'Skip<', 'Take<', 'StepBy<', 'Chain<', 'Peekable<')
 
 NARROW_BINOPS = ('BitAnd', 'Rem', 'Shr', 'Div')
@@ -357,6 +358,16 @@ class FnDep:
                 for (r, p_) in muts:
                     ch |= self.write(r, p_, res | recv)
                 return ch
+        # element-selecting adaptors: the elements of the result are elements of the receiver; the predicate only decides how many
+        if callee in ELEMENT_SELECTORS and len(t['args']) == 2 and t['args'][1]['k'] in ('copy', 'move') and not t['args'][1]['pl'].get('p'):
+            ci = self._closure_info(t['args'][1]['pl']['l'])
+            if ci is not None:
+                res = set(self.read_op(t['args'][0]))
+                extra = set(self.eng.closure_internal_atoms(ci[0]))
+                for c in ci[1]:
+                    extra |= self.read_op(c)
+                res |= {a if a[0] in ('len', 'narrow') else ('len', a) for a in extra}
+                return self.write_place(t['dst'], res)
         # external (or unresolvable) call
         per, muts = self._arg_atoms_and_muts(t['args'])
         allat = set()
@@ -401,6 +412,15 @@ class FnDep:
                 return set()
             arg = args[k - 1]
             if arg['k'] in ('copy', 'move'):
+                # the environment of a closure built in this body: capture n of the closure is the n-th capture operand (field sensitive)
+                if path and str(path[0]).isdigit() and not arg['pl'].get('p'):
+                    ci = self._closure_info(arg['pl']['l'])
+                    if ci is not None and int(path[0]) < len(ci[1]):
+                        cop = ci[1][int(path[0])]
+                        if cop['k'] in ('copy', 'move'):
+                            r0, p0 = self.resolve_place(cop['pl'])
+                            return self.read(r0, (p0 + tuple(path[1:]))[:DEPTH])
+                        return self.const_atoms(cop)
                 root, ap = self.resolve_place(arg['pl'])
                 out = self.read(root, ap + path)
                 for ex in self._alias_extra.get(arg['pl']['l'], []):
